@@ -221,6 +221,28 @@ let handle (fs : string list) : string =
          | Good (((st, dr), eq), ((so, tr), ro)) ->
              "S " ^ b2s st ^ b2s dr ^ b2s eq ^ b2s so ^ b2s tr ^ b2s ro)
       end else
+      if cmd = "total" then begin
+        let b2s b = if b then "1" else "0" in
+        let (st, ok) = total_check backend c o toks in
+        if !misses <> [] then "!miss " ^ String.concat " " (List.rev !misses) else "T " ^ b2s st ^ b2s ok
+      end else
+      if cmd = "xfchk" then begin
+        let b2s b = if b then "1" else "0" in
+        let r = xform_check backend c o toks in
+        if !misses <> [] then "!miss " ^ String.concat " " (List.rev !misses) else
+        (match r with
+         | Bad e -> show_err e
+         | Good ((lf, rr), iu) -> "X " ^ b2s lf ^ b2s rr ^ b2s iu)
+      end else
+      if cmd = "agree" then begin
+        (* the request carries the Sphinx configuration; the docutils one differs in auto_id_prefix and MathJax *)
+        let cd = { c with c_auto_id_prefix = [n_of_int 37]; c_mathjax_block = false } in
+        let r = agree_check cd c o toks in
+        if !misses <> [] then "!miss " ^ String.concat " " (List.rev !misses) else
+        (match r with
+         | Bad e -> show_err e
+         | Good b -> if b then "A 1" else "A 0")
+      end else
       let res = (match cmd with
           | "render" -> render_doc backend c o toks
           | "xform" -> render_xform backend c o toks
